@@ -307,6 +307,31 @@ def linecol_rules(fns, what, bad):
     return nob
 
 
+def below_fact(term, outcome):
+    """(a, b) when the test `term` with this outcome establishes a < b; else None"""
+    if not (isinstance(term, tuple) and term[0] == 'CMP' and len(term[1]) == 1 and len(term) == 4):
+        return None
+    op, a, b = term[1][0], term[2], term[3]
+    if (op, outcome) == ('Lt', True) or (op, outcome) == ('GtE', False):
+        return (a, b)
+    if (op, outcome) == ('Gt', True) or (op, outcome) == ('LtE', False):
+        return (b, a)
+    return None
+
+
+def not_below_fact(term, outcome):
+    """(a, b) when the test establishes a >= b"""
+    return below_fact(term, not outcome)
+
+
+def norm_len(t, tvals):
+    """lemma (LINECOL rules): the position tables have one entry per element of the text, so
+    len(table) is len(text)"""
+    if isinstance(t, tuple) and t[:2] == ('CALL', ('VAR', 'len')) and len(t) == 3 and t[2] in tvals:
+        return LEN_TEXT
+    return t
+
+
 def table_terms(fn_paths):
     """terms that denote the per-index tables inside a function: results of the map call"""
     out = {}
@@ -346,11 +371,13 @@ def finalize_rules(fns, what, bad):
     saw_raise = saw_ret = False
     for p in paths:
         tests = [(t[1], t[2]) for t in p.tests()]
-        lt = ('CMP', ('Lt',), POS, LEN_TEXT)
-        gt = ('CMP', ('Gt',), LEN_TEXT, POS)
         cond_full = [o for t, o in tests if t == FULL]
-        cond_rem = [o for t, o in tests if t in (lt, gt)]
-        partial = cond_full == [True] and cond_rem == [True]
+        below = [(a, norm_len(b, tvals)) for a, b in (below_fact(t, o) for t, o in tests if below_fact(t, o))]
+        notbelow = [(a, norm_len(b, tvals)) for a, b in (not_below_fact(t, o) for t, o in tests
+                                                         if not_below_fact(t, o))]
+        if set(below) & set(notbelow):
+            continue                    # infeasible: the same comparison decided both ways
+        partial = cond_full == [True] and (POS, LEN_TEXT) in below
         nob += 1
         if p.end[0] == 'raise':
             saw_raise = True
@@ -453,7 +480,7 @@ def finalize_rules(fns, what, bad):
                 h = helpers.get(a[1][1])
                 if h is None or idx is None:
                     raise AnalysisError(f'{what}: position helper {a[1]} not understood')
-                check_position_helper(h, tables, what, bad)
+                check_position_helper(h, tables, what, bad, paths[0].env)
             elif isinstance(a, tuple) and a[:2] == ('CALL', ('VAR', '_Position')) and len(a) == 5:
                 idx = a[2]
                 for j, x in enumerate(a[3:]):
@@ -492,11 +519,16 @@ def finalize_rules(fns, what, bad):
     return nob
 
 
-def check_position_helper(h, tables, what, bad):
-    """local helper index -> _Position: guarded lookup, None/None at or beyond the end"""
+def check_position_helper(h, tables, what, bad, closure=None):
+    """local helper index -> _Position: guarded lookup, None/None at or beyond the end; analysed with
+    the enclosing function's bindings (the tables and anything computed from them)"""
     I = ('PARAM', h.args.args[0].arg)
-    ps = P.Enumerator().function(h)
-    names = set(tables)
+    own = {a.arg for a in h.args.args}
+    env = {k: v for k, v in (closure or {}).items() if k not in own}
+    for k in tables:
+        env.setdefault(k, tables[k])
+    ps = P.Enumerator().function(h, params=env)
+    tvals = set(tables.values())
     for p in ps:
         if p.end[0] != 'return':
             bad('TABLE-index', f'{what}: position helper {h.name} has a path without return')
@@ -506,16 +538,13 @@ def check_position_helper(h, tables, what, bad):
             bad('SPAN-convert', f'{what}: {h.name} returns {P.tfmt(r)[:90]}; expected _Position(index, line, column)')
             continue
         subs = [x for x in r[3:] if isinstance(x, tuple) and x[0] == 'SUB']
-        guard = [t for t in p.tests() if t[2] and isinstance(t[1], tuple) and t[1][:2] == ('CMP', ('Lt',))
-                 and t[1][2] == I and (t[1][3] == LEN_TEXT or (
-                     isinstance(t[1][3], tuple) and t[1][3][:2] == ('CALL', ('VAR', 'len'))
-                     and isinstance(t[1][3][2], tuple) and t[1][3][2][:1] == ('VAR',) and t[1][3][2][1] in names))]
+        facts = [below_fact(t[1], t[2]) for t in p.tests()]
+        guard = [f for f in facts if f and f[0] == I and norm_len(f[1], tvals) == LEN_TEXT]
         if subs:
             if not guard:
                 bad('TABLE-index', f'{what}: {h.name} subscripts a position table without the guard index < len(table)')
             for j, x in enumerate(r[3:]):
-                ok = isinstance(x, tuple) and x[0] == 'SUB' and x[2] == I and isinstance(x[1], tuple) \
-                    and x[1][:1] == ('VAR',) and x[1][1] in names and tables[x[1][1]][2] == j
+                ok = isinstance(x, tuple) and x[0] == 'SUB' and x[2] == I and x[1] in tvals and x[1][2] == j
                 if not ok:
                     bad('SPAN-convert', f'{what}: {h.name} builds a position from {P.tfmt(x)[:70]} '
                                         f'(slot {j}: expected the {"line" if j == 0 else "column"} table at the same index)')
